@@ -48,10 +48,10 @@ def c_op(op):
 
 
 def modelable(rec) -> bool:
-    """Symlinks / foreign names never appear unless the implementation misbehaves badly."""
+    """Symlinks / foreign names never appear in model-tied cases unless the implementation misbehaves badly."""
     for t in [rec["before"], rec["after"]] + [s[3] for s in rec["steps"]]:
         for p, n in t:
-            if n == "L" or any(isinstance(c, str) for c in p):
+            if n.startswith(F.LINK) or any(isinstance(c, str) for c in p):
                 return False
     return True
 
@@ -191,6 +191,12 @@ def run(ctx: vlib.Ctx):
         sib = ctx.rng.random() < 0.35
         # two thirds of the sequences name their paths in other spellings (., .., //, trailing /, relative)
         cases.append((init, ops, sib, F.gen_spell(ctx.rng, ops) if ctx.rng.random() < 0.67 else None))
+    # oracle-only layouts: pre-existing symbolic links (dangling, to a file, to a directory); the model is
+    # symlink-free, so these sequences are not replayed in Coq and their paths are spelled plainly
+    n_links = 90 if ctx.quick else 1500
+    for _ in range(n_links):
+        init = F.gen_init_links(ctx.rng)
+        cases.append((init, F.gen_ops(ctx.rng, init, ctx.rng.choice([2, 4, 6, 8])), ctx.rng.random() < 0.2, None))
     recs = run_all(ctx, cases)
     # S: the property on the real filesystem
     n_or = 0
@@ -199,7 +205,7 @@ def run(ctx: vlib.Ctx):
         ctx.case_seen((init, ops, sib, spell), nontrivial=len(rec["steps"]) > 0)
         for kind in rec["spelled"]:
             ctx.count("spelling:" + kind)
-        ctx.count("layout:" + ("root-is-tmpdir-plus-suffix" if sib else "plain"))
+        ctx.count("layout:" + ("root-is-tmpdir-plus-suffix" if sib else "plain") + ("+symlinks" if F.has_links(init) else ""))
         ctx.count("prefix-sibling-touched", int(_prefix_sibling_touched(rec)))
         ctx.count("skipped-outside-model", rec["skipped"])
         for op, r, cr, _t in rec["steps"]:
@@ -231,24 +237,26 @@ def run(ctx: vlib.Ctx):
                        "remove/unlink/rmdir/rmtree) over sandbox trees with pre-existing files and directories, plus the "
                        "minimised-failure corpus; non-trivial = at least one executed operation; distinct = distinct (tree, ops)")
     # K2: the Coq model replays every sequence
-    usable = [i for i, r in enumerate(recs) if modelable(r)]
+    tied = [i for i in range(len(recs)) if not F.has_links(cases[i][0])]
+    usable = [i for i in tied if modelable(recs[i])]
     coq_cases = [c_case(cases[i][0], recs[i]) for i in usable]
     bad = ctx.run_cases("C29_cases", IMPORTS, "C29.case", "C29.check_case", coq_cases, shard=60)
     if bad is None:
         pass
-    elif bad or len(usable) < len(recs):
-        ctx.leg("K2", ok=False, mismatches=len(bad), unmodelable=len(recs) - len(usable))
+    elif bad or len(usable) < len(tied):
+        ctx.leg("K2", ok=False, mismatches=len(bad), unmodelable=len(tied) - len(usable))
         if n_or == 0:
-            i = usable[bad[0]] if bad else next(j for j in range(len(recs)) if j not in usable)
+            i = usable[bad[0]] if bad else next(j for j in tied if j not in usable)
             ctx.broken("correspondence:C29-model-vs-fs_isolation",
                        "the isolation model (about which the theorems are proved) no longer reproduces FilesystemIsolation",
                        {"case": _json_case(cases[i][0], cases[i][1], cases[i][2], cases[i][3]),
                         "implementation": [[repr(s[0]), s[1], [list(p) for p in s[2]]] for s in recs[i]["steps"]],
                         "mismatching_sequences": len(bad)})
     else:
-        ctx.leg("K2", ok=True, sequences=len(coq_cases))
+        ctx.leg("K2", ok=True, sequences=len(coq_cases), oracle_only_symlink_sequences=len(recs) - len(tied))
     ctx.assumptions += [
-        "paths are absolute and normalised, the working directory is outside the sandbox and is not changed; no symlinks, hard links, dir_fd or file-descriptor arguments",
+        "model-tied sequences: no symlinks, hard links, dir_fd or file-descriptor arguments; the working directory is outside the sandbox and is not changed (path spellings incl. relative ones are exercised)",
+        "pre-existing symbolic links (dangling / to a file / to a directory) are covered by the direct oracle only (lstat snapshot before == after), not by the Coq model or its theorems",
         "the filesystem behaves like a POSIX tree (function path -> file content | directory); error kinds are abstracted to ok / refused by the isolation layer / other error",
         "shutil.copytree and shutil.move of a directory to a destination with a missing parent (copytree+rmtree fall-back) are outside the model",
         "the private temporary directory of the isolation is outside the sandbox and not observed",
